@@ -31,7 +31,7 @@ def child(mod_name, tier, seed, runs):
         res = proc.fork_call(fn, soft=600)
         if 'ok' not in res:
             stats['harness:' + str(res.get('harness'))] += 1
-            if res.get('tb'): print('HARNESS', seed, r, res.get('exc'), res['tb'][-600:], file=sys.stderr)
+            out.setdefault('HARNESS:' + str(res.get('exc'))[:80], (res.get('tb') or '')[-900:] + ' [seed %d run %d]' % (seed, r))
             continue
         stats['runs'] += 1
         for k, v in res['ok']['col'].items():
@@ -74,4 +74,4 @@ if __name__ == '__main__':
         time.sleep(0.5)
     print('wall', round(time.time() - t0), 's')
     for k, v in sorted(stats.items()): print('STAT', k, v)
-    for k in sorted(allsigs): print('SIG', k, '\n      e.g.', allsigs[k].replace('\n', ' ')[:330])
+    for k in sorted(allsigs): print('SIG', k, '\n      e.g.', allsigs[k].replace('\n', ' ')[:330 if not k.startswith('HARNESS') else 1200])
